@@ -61,8 +61,8 @@ def rand_history(rng, cfg, s, n, buf_extra, p_full=0.2, p_toggle=0.0, p_swap=0.0
         oracle[i0] = (oracle[i0][0], None, oracle[i0][2], oracle[i0][3])
     return {'calls': calls, 'oracle': oracle, 'pcargs': pcargs, 'buf': buf_bytes,
             'same_addr': p_swap > 0 and rng.random() < p_same_addr,
-            # eager (double-buffering) platform: the closing callback opens the next packet itself.  Not a platform
-            # of the Coq model: such histories are checked by the implementation-side oracles only
+            # eager (double-buffering) platform: the closing callback opens the next packet itself right after handing
+            # the closed one over (a_eager in the Coq model)
             'eager': p_eager > 0 and rng.random() < p_eager}
 
 
@@ -290,11 +290,12 @@ def coq_call(c):
     return 'CFini'
 
 
-def coq_ans(o):
+def coq_ans(o, eager=False):
     full, tog, newbuf, inc = o
-    return '(mk_ans %s %s %s %d)' % ('true' if full else 'false',
-                                     'None' if tog is None else '(Some %s)' % ('true' if tog else 'false'),
-                                     'None' if newbuf is None else '(Some %d)' % newbuf, inc)
+    return '(mk_ans %s %s %s %d %s)' % ('true' if full else 'false',
+                                        'None' if tog is None else '(Some %s)' % ('true' if tog else 'false'),
+                                        'None' if newbuf is None else '(Some %d)' % newbuf, inc,
+                                        'true' if eager else 'false')
 
 
 def model_logs(cfg, s, hists, scratch, name, timeout=900):
@@ -310,7 +311,7 @@ def model_logs(cfg, s, hists, scratch, name, timeout=900):
     for h in hists:
         rows.append('(%d, [%s], [%s], [%s])' % (
             h['buf'], '; '.join(lg.coq_val(lg.model_val(v)) for v in h['pcargs']),
-            '; '.join(coq_ans(o) for o in h['oracle']),
+            '; '.join(coq_ans(o, h.get('eager')) for o in h['oracle']),
             '; '.join(coq_call(c) for c in h['calls'])))
     body.append(';\n'.join(rows))
     body.append('].')
@@ -440,7 +441,7 @@ def model_and_decode(cfg, s, hists, impl_packets, scratch, name, tstream_term=No
     for h in hists:
         rows.append('(%d, [%s], [%s], [%s])' % (
             h['buf'], '; '.join(lg.coq_val(lg.model_val(v)) for v in h['pcargs']),
-            '; '.join(coq_ans(o) for o in h['oracle']),
+            '; '.join(coq_ans(o, h.get('eager')) for o in h['oracle']),
             '; '.join(coq_call(c) for c in h['calls'])))
     body.append(';\n'.join(rows))
     body.append('].')
